@@ -8,6 +8,7 @@ sequences to be small enough that multiple hits are unlikely
 package updown
 
 import (
+	"github.com/virus-evolution/gofasta/pkg/verifhook"
 	"errors"
 	"io"
 	"math"
@@ -280,6 +281,7 @@ func pushCatchment2Catchment(pC pushCatchmentSubStruct) updownCatchmentSubStruct
 	uC := updownCatchmentSubStruct{}
 	uC.catchment = make([]resultsStruct, 0)
 	for _, v := range pC.catchmentMap {
+		verifhook.Note("updown.pushCatchment2Catchment", strconv.Itoa(v[0].distance))
 		for _, r := range v {
 			uC.catchment = append(uC.catchment, r)
 		}
@@ -385,6 +387,7 @@ func findUpDownCatchmentPushDistance(q updownLine, ignore []string, sizeArray [4
 
 	// TO DO - balance the neighbours here if sizeArray is given? Would need a balance function specific to pushing
 
+	verifhook.Jitter("updown.findUpDownCatchment", neighbours.qidx)
 	cOut <- neighbours
 }
 
@@ -547,6 +550,7 @@ func findUpDownCatchment(q updownLine, ignore []string, sizeArray [4]int, nofill
 	neighbours.down.catchment = neighbours.down.catchment[0:size[2]]
 	neighbours.side.catchment = neighbours.side.catchment[0:size[3]]
 
+	verifhook.Jitter("updown.findUpDownCatchment", neighbours.qidx)
 	cOut <- neighbours
 }
 
